@@ -224,7 +224,7 @@ pub fn run(tier: Tier, seed: u64) -> i32 {
   report.stats.evaluations += exhaustive;
   report.extra.insert("exhaustive_pairs".into(), json!(exhaustive));
   report.extra.insert("exhaustive_scope".into(), json!("all 64 ordered pairs of Result<u8 in 0..4, u8 in 0..4>, all 16+16+4 pairs of Result<u8 in 0..3,()>, Result<(),u8 in 0..3>, Result<(),()>, x 5 checkers x 2 routes"));
-  let (shards, cases) = match tier { Tier::Quick => (4, 20000), Tier::Thorough => (16, 200000) };
+  let (shards, cases) = match tier { Tier::Quick => (16, 20000), Tier::Thorough => (16, 200000) };
   let cfg = SearchCfg { prop: "C12", label: "pair", seed, shards, cases_per_shard: cases, max_shrink_iters: 2000 };
   let (stats, found) = driver::search(&cfg, &known, strategy, |p, s| check(p, s), |p| format!("{:?}", p));
   report.absorb("pair", stats, found);
